@@ -37,7 +37,7 @@ RSS_LIMIT_KB = 50 * 1024
 SUCCESS = {"PROPFIND": 207, "PROPPATCH": 207, "REPORT": 207, "MKCOL": 201, "MKCALENDAR": 201}
 SECRET = "DECOY-SECRET-c19-7f3a91"
 EVENT = ("BEGIN:VCALENDAR\r\nPRODID:-//v//EN\r\nVERSION:2.0\r\nBEGIN:VEVENT\r\nUID:e1\r\nSUMMARY:s\r\n"
-         "DTSTART:20130901T180000Z\r\nDTEND:20130901T190000Z\r\nEND:VEVENT\r\nEND:VCALENDAR\r\n")
+         "DTSTAMP:20130901T000000Z\r\nDTSTART:20130901T180000Z\r\nDTEND:20130901T190000Z\r\nEND:VEVENT\r\nEND:VCALENDAR\r\n")
 RESTORE = ('<?xml version="1.0"?><D:propertyupdate xmlns:D="DAV:"><D:set><D:prop><D:displayname>base</D:displayname>'
            '</D:prop></D:set></D:propertyupdate>')
 MKCAL = ('<?xml version="1.0"?><C:mkcalendar xmlns:D="DAV:" xmlns:C="urn:ietf:params:xml:ns:caldav"><D:set><D:prop>'
@@ -197,23 +197,29 @@ def wire(reqs):
     return out
 
 
-def run_driver(ctx, base, reqs, timeout):
-    folder = os.path.join(base, "storage")
+def run_driver(ctx, base, reqs, timeout, tag="", strace=True, **extra):
+    folder = os.path.join(base, "storage" + tag)
     os.makedirs(folder, exist_ok=True)
-    spec, outp, tr = os.path.join(base, "spec.json"), os.path.join(base, "out.json"), os.path.join(base, "trace.txt")
+    spec, outp, tr = os.path.join(base, "spec%s.json" % tag), os.path.join(base, "out%s.json" % tag), os.path.join(base, "trace%s.txt" % tag)
     for p in (outp, tr):
         if os.path.exists(p):
             os.remove(p)
-    json.dump(dict(folder=folder, conf=CONF, secret=SECRET, limits=dict(as_bytes=4 << 30, alarm_s=20), requests=wire(reqs)),
-              open(spec, "w"))
-    rc, out = trace.run_traced([core.PY, os.path.join(core.VERIF, "vlib/drivers/c19_driver.py"), spec, outp], tr, timeout=timeout)
+    d = dict(folder=folder, conf=CONF, secret=SECRET, limits=dict(as_bytes=4 << 30, alarm_s=20), requests=wire(reqs))
+    d.update(extra)
+    json.dump(d, open(spec, "w"))
+    argv = [core.PY, os.path.join(core.VERIF, "vlib/drivers/c19_driver.py"), spec, outp]
+    if strace:
+        rc, out = trace.run_traced(argv, tr, timeout=timeout)
+    else:
+        rc, out = core.sh(argv, timeout=timeout)
     if rc != 0 or not os.path.exists(outp):
         return None, None, out
     results = {r["mark"]: r for r in json.load(open(outp))}
     windows = {}
-    for label, evs in trace.split_by_marks(trace.parse(tr)):
-        if label.startswith("q"):
-            windows[label[1:]] = evs
+    if strace:
+        for label, evs in trace.split_by_marks(trace.parse(tr)):
+            if label.startswith("q"):
+                windows[label[1:]] = evs
     return results, windows, out
 
 
@@ -309,9 +315,9 @@ def replay_of(c, res, extra=None):
     return d
 
 
-def evaluate(ctx, base, decoy, reqs, cases, results, windows, record=True):
+def evaluate(ctx, base, decoy, reqs, cases, results, windows, record=True, tag="", syscalls=True):
     """monitors; returns list of (what, case, res, extra)"""
-    folder = os.path.join(base, "storage")
+    folder = os.path.join(base, "storage" + tag)
     found = []
     prev_dump = None
     order = [r["mark"] for r in reqs]
@@ -353,10 +359,10 @@ def evaluate(ctx, base, decoy, reqs, cases, results, windows, record=True):
             what.append("request took %.2f s (limit %.1f s)" % (res["dt"], TIME_LIMIT_S))
         if res.get("rss1", 0) - res.get("rss0", 0) > RSS_LIMIT_KB:
             what.append("peak RSS grew by %d kB (limit %d kB)" % (res["rss1"] - res["rss0"], RSS_LIMIT_KB))
-        evs = windows.get(mk)
+        evs = windows.get(mk) if syscalls else []
         if evs is None:
             what.append("no system-call window recorded for the request")
-        else:
+        elif syscalls:
             sc = syscall_monitor(evs, base, folder, decoy, rejected or c["declares"])
             what += sc[:3]
         prev_dump = res["dump"]
@@ -431,11 +437,18 @@ def _run(ctx, base):
         ctx.violation("C19 %s %s (%s, %s): %s" % (c["method"], c["path"], c["kind"], c["charset"], what), replay_of(c, res))
     if ctx.extra.get("restore_mismatch"):
         ctx.notes.append("harness: the store was not back at the baseline after %d restore requests" % len(ctx.extra["restore_mismatch"]))
+    # ---------------------------------------------------------------- 3b. histories on one instance, configuration dimension
+    hcases, hres = history_check(ctx, base, decoy)
+    ctx.log("history stream done")
+    debug_check(ctx, base, decoy)
+    ctx.log("configuration stream done")
+    found = found or [v for v in ctx.violations]
     # ---------------------------------------------------------------- 2. correspondence, evaluated in Coq
     fd = forbid_dtd_in_source()
     ctx.extra["forbid_dtd_in_source"] = fd
     good = [c for c in cases if c["mark"] in results]
     pairs = [(c, expected_tuple(c, results[c["mark"]])) for c in good]
+    pairs += [(c, expected_tuple(c, hres[c["mark"]])) for c in hcases if c["a"] is not None and c["mark"] in hres]
     bad = ctx.diff_cases("c19_corr", HEADER, "(corr_case %s)" % ("true" if fd else "false"), pairs, enc_in, enc_out, "corr_eqb", shard=80)
     if bad is not None:
         ok = not bad
@@ -452,6 +465,191 @@ def _run(ctx, base):
             c, exp = pairs[bad[0]]
             ctx.violation("C19 model / implementation disagree on %s %s (%s, %s): observed %r" % (
                 c["method"], c["path"], c["kind"], c["charset"], exp[3:]), replay_of(c, results[c["mark"]]))
+
+
+# ---------------------------------------------------------------------------------------------- request histories
+def setup_reqs():
+    out = [dict(method="PROPFIND", path="/u/", user="u", aux=True),
+           dict(method="MKCALENDAR", path="/u/cal/", user="u", body=MKCAL.encode(), ctype="text/xml; charset=utf-8", aux=True),
+           dict(method="PUT", path="/u/cal/e1.ics", user="u", body=EVENT.encode(), ctype="text/calendar; charset=utf-8", aux=True)]
+    for i, r in enumerate(out):
+        r["mark"] = "s%d" % i
+    return out
+
+
+def build_history(ctx, decoy):
+    """Request HISTORIES on one Application instance: the same bytes again and again, under different declared charsets,
+    hostile readings before and after a harmless reading of the same bytes was accepted."""
+    rng = ctx.rng
+    reqs, cases = setup_reqs(), []
+    group = [0]
+
+    def send(m, a, text, data, named, kind, label, declares, restore):
+        idx = len(cases)
+        ctype = "text/xml; charset=%s" % named if named else "text/xml"
+        path = "/u/cal/" if m in ("PROPFIND", "PROPPATCH", "REPORT") else "/u/k%d/" % idx
+        mark = "c%d" % idx
+        names = ([named] if named else []) + ["utf-8", "iso8859-1"]
+        dres = decode_results(data, names, text) if a is not None else []
+        reqs.append(dict(method=m, path=path, user="u", body=data, ctype=ctype, mark=mark, group=group[0]))
+        cases.append(dict(idx=idx, mark=mark, method=m, path=path, kind=kind, charset=label, named=named, a=a, text=text, data=data,
+                          ctype=ctype, dres=dres, declares=declares, group=group[0]))
+        if restore:
+            if m in ("MKCOL", "MKCALENDAR"):
+                reqs.append(dict(method="DELETE", path=path, user="u", aux=True, mark="r%d" % idx, group=group[0]))
+            elif m == "PROPPATCH":
+                reqs.append(dict(method="PROPPATCH", path=path, user="u", body=RESTORE.encode(), ctype="text/xml; charset=utf-8",
+                                 aux=True, mark="r%d" % idx, group=group[0]))
+
+    n = 0
+    methods_rot = 0
+    for codec in X.TRANSFORMS:
+        for m in (X.METHODS if not ctx.quick else [X.METHODS[(2 * methods_rot) % 5], X.METHODS[(2 * methods_rot + 1) % 5]]):
+            n += 1
+            group[0] += 1
+            a, data, raw = X.polyglot(m, codec, n, depth=rng.choice([2, 3, 5]), fan=rng.choice([3, 10]))
+            hostile = X.render(a)
+            for step in ("T", "utf-8", "T", "iso-8859-1", "T", "utf-16", None, "T", "T"):
+                if step == "T":
+                    send(m, a, hostile, data, codec, "polyglot-" + codec, "as-" + codec, True, False)
+                else:
+                    # the harmless reading (or, for utf-16, whatever decode_request makes of it): not a term of the grammar
+                    send(m, None, raw, data, step, "polyglot-" + codec, "as-%s" % step, False, True)
+        methods_rot += 1
+    kinds = list(dict.fromkeys(X.HOSTILE_KINDS))
+    for i, k in enumerate(kinds):
+        m = X.METHODS[i % 5]
+        n += 1
+        group[0] += 1
+        a = X.gen_attack(random.Random(rng.randrange(10**9)), m, k, decoy, 1000 + n, force_decl=("pi", "xml", 'version="1.0"'))
+        text = X.render(a)
+        if not text.isascii() or "+" in text or "\\" in text:
+            continue
+        data = text.encode("ascii")
+        for named in ("utf-8", "utf-8", "iso-8859-1", "utf-7", "utf-16", None, "utf-8"):
+            send(m, a, text, data, named, k, "repeat-%s" % named, True, False)
+    for r in reqs:
+        r.setdefault("group", 0)
+    return reqs, cases
+
+
+def history_check(ctx, base, decoy):
+    reqs, cases = build_history(ctx, decoy)
+    res_h, win_h, out = run_driver(ctx, base, reqs, timeout=900, tag="-hist")
+    res_f, _, out2 = run_driver(ctx, base, reqs, timeout=900, tag="-fresh", strace=False, fresh=True)
+    if res_h is None or res_f is None:
+        ctx.obligation("history:driver-ran", False, ((out or "") + (out2 or ""))[-1500:])
+        return [], []
+    ctx.obligation("history:driver-ran", True)
+    found = evaluate(ctx, base, decoy, reqs, cases, res_h, win_h, tag="-hist")
+    seen = {c["mark"] for _, c, _ in found}
+
+    def sig(res):
+        st = res.get("status")
+        return (st, (res.get("body") or "") if st in (400, 408, 500) else "", res.get("dump_nc"))
+    # the rule: inert is per request -- response class and store effect of request k of a history equal those of the same
+    # request sent to a fresh instance over the same store
+    for c in cases:
+        a, b = res_h.get(c["mark"]), res_f.get(c["mark"])
+        ctx.case(("hist", c["group"], c["idx"]), nontrivial=True)
+        ctx.count("history:" + c["charset"].split("-")[0])
+        if a is None or b is None:
+            continue
+        if sig(a) != sig(b) and c["mark"] not in seen:
+            found.append(("the verdict depends on earlier requests: after the history status %s%s, on a fresh instance status %s%s" % (
+                a.get("status"), "" if a.get("dump_nc") == b.get("dump_nc") else " (store differs)", b.get("status"),
+                " %r" % (b.get("body") or "")[:60]), c, a))
+    ctx.extra["history_requests"] = len(cases)
+    ctx.extra["history_monitor_failures"] = len(found)
+    by_group = {}
+    for r in reqs:
+        by_group.setdefault(r.get("group", 0), []).append(r)
+    for what, c, res in found[:2]:
+        hist = []
+        for r in by_group.get(c["group"], []):
+            hist.append(dict(method=r["method"], path=r["path"], ctype=r.get("ctype"), body_b64=b64(r["body"]) if r.get("body") is not None else None))
+            if r["mark"] == c["mark"]:
+                break
+        ctx.violation("C19 history %s %s (%s, %s): %s" % (c["method"], c["path"], c["kind"], c["charset"], what),
+                      replay_of(c, res, dict(history=hist, note="./check C19 --replay <this file> sends the history to ONE instance and "
+                                                           "the last request to a fresh one, and prints both outcomes")))
+    return cases, res_h
+
+
+# ---------------------------------------------------------------------------------------------- configuration dimension
+ALLOC_SLACK, ALLOC_PER_BYTE = 256 * 1024, 16
+LOG_SLACK, LOG_PER_BYTE = 16 * 1024, 8
+
+
+def debug_check(ctx, base, decoy):
+    """[logging] level = debug with request_content_on_debug / response_content_on_debug / bad_put_request_content /
+    request_header_on_debug switched on: a hostile request must cost about what it costs at the default configuration --
+    allocation (tracemalloc peak) and log volume are compared with the same request on a default instance."""
+    reqs, cases = setup_reqs(), []
+    serial = 5000
+
+    def send(m, a, kind):
+        idx = len(cases)
+        text = X.render(a)
+        data = text.encode("utf-8")
+        path = "/u/cal/" if m in ("PROPFIND", "PROPPATCH", "REPORT") else "/u/d%d/" % idx
+        mark = "c%d" % idx
+        reqs.append(dict(method=m, path=path, user="u", body=data, ctype="text/xml; charset=utf-8", mark=mark))
+        cases.append(dict(idx=idx, mark=mark, method=m, path=path, kind=kind, charset="utf-8", named="utf-8", a=a, text=text, data=data,
+                          ctype="text/xml; charset=utf-8", dres=[], declares=True))
+    # warm-up (unmeasured in effect: linecache, lazy imports, first traceback)
+    send("PROPFIND", X.lol_attack("PROPFIND", 1, 1, serial), "warm-up")
+    send("PROPPATCH", X.lol_attack("PROPPATCH", 1, 1, serial), "warm-up")
+    for i, k in enumerate(dict.fromkeys(X.HOSTILE_KINDS)):
+        serial += 1
+        m = X.METHODS[i % 5]
+        send(m, X.gen_attack(random.Random(ctx.rng.randrange(10**9)), m, k, decoy, serial), k)
+    for (d, k) in ((3, 10), (5, 10), (6, 10), (12, 10)):
+        for m in X.METHODS:
+            serial += 1
+            send(m, X.lol_attack(m, d, k, serial), "lol-%d-%d" % (d, k))
+    res_d, _, out = run_driver(ctx, base, reqs, timeout=600, tag="-cfg0", strace=False, measure=True)
+    res_g, _, out2 = run_driver(ctx, base, reqs, timeout=600, tag="-cfg1", strace=False, measure=True, mode="debug")
+    if res_d is None or res_g is None:
+        ctx.obligation("config:driver-ran", False, ((out or "") + (out2 or ""))[-1500:])
+        return
+    ctx.obligation("config:driver-ran", True)
+    found = evaluate(ctx, base, decoy, reqs, cases, res_g, {}, tag="-cfg1", syscalls=False)
+    seen = {c["mark"] for _, c, _ in found}
+    worst_alloc = worst_log = 0
+    for c in cases:
+        if c["kind"] == "warm-up":
+            continue
+        a, g = res_d.get(c["mark"]), res_g.get(c["mark"])
+        ctx.case(("cfg", c["kind"], c["method"], X.fingerprint(c["text"])), nontrivial=True)
+        ctx.count("config-debug:" + c["kind"].split("-")[0])
+        if a is None or g is None:
+            continue
+        n = len(c["data"])
+        what = []
+        if a.get("status") != g.get("status"):
+            what.append("status %s at the default configuration, %s with debug logging" % (a.get("status"), g.get("status")))
+        extra_alloc = g.get("alloc_peak", 0) - a.get("alloc_peak", 0)
+        worst_alloc = max(worst_alloc, extra_alloc)
+        worst_log = max(worst_log, g.get("log_bytes", 0))
+        if extra_alloc > ALLOC_SLACK + ALLOC_PER_BYTE * n:
+            what.append("with debug logging the request allocates %d bytes more than at the default configuration (body %d bytes, "
+                        "bound %d)" % (extra_alloc, n, ALLOC_SLACK + ALLOC_PER_BYTE * n))
+        if g.get("log_bytes", 0) > LOG_SLACK + LOG_PER_BYTE * n:
+            what.append("%d bytes of log for a body of %d bytes (largest entry %d, bound %d)" % (
+                g["log_bytes"], n, g.get("log_largest", 0), LOG_SLACK + LOG_PER_BYTE * n))
+        if g.get("log_leak"):
+            what.append("decoy content in the log")
+        if what and c["mark"] not in seen:
+            found.append(("; ".join(what), c, g))
+    ctx.extra["config_debug_requests"] = len(cases) - 2
+    ctx.extra["config_debug_max_extra_alloc_bytes"] = worst_alloc
+    ctx.extra["config_debug_max_log_bytes"] = worst_log
+    ctx.extra["config_debug_failures"] = len(found)
+    for what, c, res in found[:2]:
+        ctx.violation("C19 debug-logging configuration %s %s (%s): %s" % (c["method"], c["path"], c["kind"], what),
+                      replay_of(c, res, dict(config="debug", note="./check C19 --replay <this file> sends the request to a default and to a "
+                                                                   "debug-logging instance and prints allocation and log volume")))
 
 
 # ---------------------------------------------------------------------------------------------- replay
@@ -471,10 +669,36 @@ def replay(ctx, path):
         m = re.search(rb"/tmp/rv-c19-[A-Za-z0-9_]+/decoy-c19\.txt", body)
         if m:
             body = body.replace(m.group(0), decoy.encode())
-        reqs = [dict(method="PROPFIND", path="/u/", user="u", aux=True, mark="s0"),
-                dict(method="MKCALENDAR", path="/u/cal/", user="u", body=MKCAL.encode(), ctype="text/xml; charset=utf-8", aux=True, mark="s1"),
-                dict(method="PUT", path="/u/cal/e1.ics", user="u", body=EVENT.encode(), ctype="text/calendar; charset=utf-8", aux=True, mark="s2"),
-                dict(method=rp["method"], path=rp["path"], user=rp.get("user", "u"), body=body, ctype=rp.get("ctype"), mark="c0")]
+        def fix(b):
+            mm = re.search(rb"/tmp/rv-c19-[A-Za-z0-9_]+/decoy-c19\.txt", b)
+            return b.replace(mm.group(0), decoy.encode()) if mm else b
+        last = dict(method=rp["method"], path=rp["path"], user=rp.get("user", "u"), body=body, ctype=rp.get("ctype"), mark="c0")
+        if rp.get("config") == "debug":
+            reqs = setup_reqs() + [last]
+            r0, _, _ = run_driver(ctx, base, reqs, 300, tag="-cfg0", strace=False, measure=True)
+            r1, _, _ = run_driver(ctx, base, reqs, 300, tag="-cfg1", strace=False, measure=True, mode="debug")
+            a, g = r0["c0"], r1["c0"]
+            n = len(body)
+            print("default configuration: status %s, tracemalloc peak %d bytes, log %d bytes" % (a["status"], a["alloc_peak"], a["log_bytes"]))
+            print("debug logging:         status %s, tracemalloc peak %d bytes, log %d bytes (body %d bytes)" % (
+                g["status"], g["alloc_peak"], g["log_bytes"], n))
+            bad = (g["alloc_peak"] - a["alloc_peak"] > ALLOC_SLACK + ALLOC_PER_BYTE * n or g["log_bytes"] > LOG_SLACK + LOG_PER_BYTE * n
+                   or a["status"] != g["status"] or g.get("log_leak"))
+            print("VERDICT: violated: cost of the refused request is amplified by the logging configuration" if bad else "VERDICT: ok")
+            return 1 if bad else 0
+        if rp.get("history"):
+            hist = [dict(method=h["method"], path=h["path"], user="u", ctype=h.get("ctype"), mark="h%d" % i,
+                         body=fix(base64.b64decode(h["body_b64"])) if h.get("body_b64") else None) for i, h in enumerate(rp["history"])]
+            r1, _, _ = run_driver(ctx, base, setup_reqs() + hist, 300, tag="-hist", strace=False)
+            r2, _, _ = run_driver(ctx, base, setup_reqs() + hist, 300, tag="-fresh", strace=False, fresh=True)
+            for h in hist:
+                print("%-10s %-12s %-36s one instance: %s   fresh instances: %s" % (
+                    h["method"], h["path"], h.get("ctype"), r1[h["mark"]]["status"], r2[h["mark"]]["status"]))
+            a, b_ = r1[hist[-1]["mark"]], r2[hist[-1]["mark"]]
+            bad = (a["status"], a["dump_nc"]) != (b_["status"], b_["dump_nc"])
+            print("VERDICT: violated: the outcome of the last request depends on the requests before it" if bad else "VERDICT: ok")
+            return 1 if bad else 0
+        reqs = setup_reqs() + [last]
         results, windows, out = run_driver(ctx, base, reqs, timeout=300)
         if results is None:
             print("driver failed:", out[-1500:])
